@@ -149,6 +149,7 @@ def gen_cases(tier, seed):
         cases += list(foldgen.random_cases(seed, 100000, depth=4))
     cases += list(foldgen.neighbour_cases())
     cases += list(foldgen.interplay_cases())
+    cases += list(foldgen.huge_shift_cases())
     for c in cases:
         c['op'] = 'fold'
     return cases
@@ -169,7 +170,7 @@ def main(tier, seed):
             continue
         cs = cases
         if version != '3.12-venv' and tier == 'quick':
-            cs = [c for i, c in enumerate(cases) if (i + len(version) + seed) % 3 == 0 or c.get('interplay')]
+            cs = [c for i, c in enumerate(cases) if (i + len(version) + seed) % 3 == 0 or c.get('interplay') or c['shape'].startswith('hugeshift')]
         st = {'cases': 0, 'folded': 0, 'violations': 0}
 
         def on_a(c, r, version=version, st=st):
@@ -178,7 +179,13 @@ def main(tier, seed):
             if 'inconclusive' in r and r.get('status') is None:
                 out = r
             if r.get('status') == 'error':
-                out = {'status': 'inconclusive', 'reason': 'minify raised %s (routed to C08)' % (r.get('exc') or {}).get('type')}
+                exc = r.get('exc') or {}
+                if 'f-string' in (exc.get('msg') or '') or 'recursion' in (exc.get('msg') or '').lower():
+                    out = {'status': 'inconclusive', 'reason': 'minify raised %s (routed to C08)' % exc.get('type')}
+                else:
+                    # an expression whose evaluation raises is to be left as it is: the exception must not escape from the folder
+                    out = {'status': 'violation', 'violations': [{'mech': None, 'detail': '%s minify() raised %s (%s) for literal arithmetic | %s' % (version, exc.get('type'), exc.get('site'), c['expr']),
+                                                                  'witness': {'interpreter': version}}]}
             if r.get('interplay_hoisted'):
                 run.count('interplay_folded_and_hoisted')
             if r.get('folded'):
